@@ -28,7 +28,7 @@ def classify(mech, w, drv):
 
 
 def run_inject(cs):
-    spec = w2.gen(cs)
+    spec = w2.gen(cs, fills=0.3)
     ctx_box = []
 
     def mk():
